@@ -98,3 +98,11 @@ Fixpoint fits (k : akind) (args : list (option aval)) : bool :=
   | KVecPush _ => match present args with [AVec _; _] => true | _ => false end
   | KVecInsert _ => match present args with [_; AVec _] => true | _ => false end
   end.
+
+(* every node of the tree applies an action body whose argument list fits its kind *)
+Fixpoint well_kinded (kinds : nat -> akind) (t : dtree) : bool :=
+  match t with
+  | DLeaf _ _ => true
+  | DNode p ch => fits (kinds p) (map (build (fun p => std_action (kinds p))) ch)
+                  && forallb (well_kinded kinds) ch
+  end.
